@@ -35,6 +35,18 @@ func initNonce(dst []byte) {
 	base64.StdEncoding.Encode(dst, bts)
 }
 
+// checkNonce reports whether given bytes are the base64 form of a
+// nonceKeySize-byte value, as RFC6455 requires for Sec-WebSocket-Key.
+func checkNonce(nonce []byte) bool {
+	if len(nonce) != nonceSize {
+		return false
+	}
+	// NOTE: buf does not escape.
+	var buf [nonceKeySize + 2]byte // base64.StdEncoding.DecodedLen(nonceSize)
+	n, err := base64.StdEncoding.Decode(buf[:], nonce)
+	return err == nil && n == nonceKeySize
+}
+
 // checkAcceptFromNonce reports whether given accept bytes are valid for given
 // nonce bytes.
 func checkAcceptFromNonce(accept, nonce []byte) bool {
